@@ -22,7 +22,9 @@ Definition CHK : bool := gen_registry_hit_checks_loading.
 Definition GRD : bool := gen_builtins_init_guarded.
 (* is_loading_module walks the whole caller chain of fibers (a loop over `.caller`), not a fixed number of levels *)
 Definition CHAIN : bool := gen_loading_walks_chain.
-Theorem C14_side_variant : CHK = true /\ GRD = true /\ gen_is_loading_is_body_frame_of_module = true /\ CHAIN = true.
+(* closure_impl gives a new closure Vm.active_module (not, e.g., the module registered under the function's path) *)
+Definition CLO : bool := gen_closure_takes_active_module.
+Theorem C14_side_variant : CHK = true /\ GRD = true /\ gen_is_loading_is_body_frame_of_module = true /\ CHAIN = true /\ CLO = true.
 Proof. vm_compute; repeat split; reflexivity. Qed.
 (* is_loading_module recognises a module body by the EMPTY function name: only the script compiler gets it
    (functions and methods are named by an identifier token, initialisers by an attribute argument, lambdas
@@ -152,6 +154,16 @@ Section Oracles.
     frames st' = mkframe m false false :: frames st /\ active st' = m /\ top_mod st' = m.
   Proof. exact (call_enters_defining_module SrcId Body loader compiler B FM CHK GRD). Qed.
 
+  (* a function of an OLD module object (its load failed, its path was loaded again as another object) still runs in,
+     reads and writes the old object; the new module of the path is untouched *)
+  Theorem C14_function_of_old_object_uses_its_own_globals : forall st m id x v w,
+    dead st = None -> m < List.length (heap st) -> id < List.length (heap st) -> id <> m ->
+    fiber_depth (frames st) <> FM -> alookup (attrs_of st m) x = Some w ->
+    let st1 := fst (stepM st (ECall m)) in
+    let st2 := fst (stepM st1 (ESetGlobal x v)) in
+    active st1 = m /\ attrs_of st2 id = attrs_of st id /\ alookup (attrs_of st2 m) x = Some v.
+  Proof. exact (function_of_old_object_uses_its_own_globals SrcId Body loader compiler B FM CHK GRD). Qed.
+
   (* a new fiber runs in the module of its closure; the chain of waiting fibers below it is what is_loading sees *)
   Theorem C14_fiber_call_enters_module : forall st m,
     dead st = None -> m < List.length (heap st) ->
@@ -249,6 +261,17 @@ Theorem C14_side_active_module_sites :
   /\ gen_unwind_truncates_then_loads = true /\ gen_globals_use_active_module = true
   /\ gen_closure_takes_active_module = true.
 Proof. vm_compute; repeat split; reflexivity. Qed.
+(* the built-in file loader (default_read_module_source, used when the host installs none): the file is
+   Path(path).with_extension("yl"); EVERY failure of fs::read_to_string is an ImportError
+   "Unable to read file '<file>' (<reason>)." - reason by io::ErrorKind, "other" for the kinds not listed; the host loader
+   of the correspondence run (harness `mods`) answers a missing module with the NotFound instance of it *)
+Theorem C14_side_default_loader :
+  gen_default_loader_read_error_kinds = ["ImportError"] /\ gen_default_loader_fmts = ["Unable to read file '{}' ({})."]
+  /\ gen_default_loader_default_reason = "other" /\ gen_default_loader_extension = "yl"
+  /\ forallb (fun kr => existsb (fun g => String.eqb (fst g) (fst kr) && String.eqb (snd g) (snd kr)) gen_default_loader_reasons)
+              [("NotFound", "file not found"); ("PermissionDenied", "permission denied"); ("InvalidData", "invalid data")] = true
+  /\ not_found_msg "m" = "Unable to read file 'm.yl' (file not found).".
+Proof. vm_compute; repeat split; reflexivity. Qed.
 (* every global init_built_in_globals installs goes into the module it was called for (its `module_path` argument), none
    into a fixed module such as "main"; B = exactly those names *)
 Theorem C14_side_builtin_names_known :
@@ -276,20 +299,48 @@ Theorem C14_core_in_builtins : forall c, In c C -> In c B.
 Proof. exact (fun c Hc => main_only_empty_incl B C C14_side_no_main_only_names c (in_or_app B C c (or_intror Hc))). Qed.
 
 Theorem C14_mech_refines_spec_tryfree : forall (prog : program) (cm : list (list (list string))) (fuel : nat),
-  tf_prog prog = true -> mech_obs prog cm B FM CHK GRD CHAIN fuel C = spec_obs prog (B ++ C) FM fuel.
-Proof. exact (fun prog cm fuel => mech_refines_spec_tryfree prog cm B C FM C14_core_in_builtins fuel). Qed.
+  ef_prog prog = true -> tf_prog prog = true ->
+  mech_obs prog cm B FM CHK GRD CHAIN CLO fuel C = spec_obs prog (B ++ C) FM fuel.
+Proof. exact (fun prog cm fuel Hef => mech_refines_spec_tryfree prog cm B C FM C14_core_in_builtins Hef fuel). Qed.
 
-(* THE REFINEMENT, all programs: also with try/catch - caught cycle / load / compile errors and thrown values followed by
-   further work, re-imports after a failed import, imports in functions called from try blocks, the frame limit.
-   (Stage A above is the special case proved first; it needs neither the handler discipline nor the "zombie" relation.) *)
-Theorem C14_mech_refines_spec : forall (prog : program) (cm : list (list (list string))) (fuel : nat),
-  mech_obs prog cm B FM CHK GRD CHAIN fuel C = spec_obs prog (B ++ C) FM fuel.
-Proof. exact (fun prog cm fuel => mech_refines_spec prog cm B C FM C14_core_in_builtins fuel). Qed.
+(* THE REFINEMENT.  Full statement: for EVERY ModLang program, module map and fuel
+       mech_obs prog cm B FM CHK GRD CHAIN CLO fuel C = spec_obs prog (B ++ C) FM fuel.
+   Proved for the escape-free programs (no statement `<alias>.f<g> = f<f>;` storing a function value in another
+   module): try/catch - caught cycle / load / compile errors and thrown values followed by further work -, re-imports
+   after a failed import, imports in functions called from try blocks, imports through nested fibers, closures created
+   and called at run time, the frame limit.  Missing: programs in which a function outlives the failed load that defined
+   it (the Spec's retired instances); for those M = S is checked by evaluation on every generated program and by
+   C14_escaped_function_keeps_old_instance below. *)
+Theorem C14_mech_refines_spec_partial : forall (prog : program) (cm : list (list (list string))) (fuel : nat),
+  ef_prog prog = true -> mech_obs prog cm B FM CHK GRD CHAIN CLO fuel C = spec_obs prog (B ++ C) FM fuel.
+Proof. exact (fun prog cm fuel Hef => mech_refines_spec_partial prog cm B C FM C14_core_in_builtins Hef fuel). Qed.
 
 (* stage 1: single-module programs *)
 Theorem C14_refines_single_module : forall (ts : list top) (cm : list (list (list string))) (fuel : nat),
-  tf_prog [MOk ts] = true -> mech_obs [MOk ts] cm B FM CHK GRD CHAIN fuel C = spec_obs [MOk ts] (B ++ C) FM fuel.
-Proof. exact (fun ts cm fuel => mech_refines_spec_tryfree [MOk ts] cm B C FM C14_core_in_builtins fuel). Qed.
+  ef_prog [MOk ts] = true -> tf_prog [MOk ts] = true ->
+  mech_obs [MOk ts] cm B FM CHK GRD CHAIN CLO fuel C = spec_obs [MOk ts] (B ++ C) FM fuel.
+Proof. exact (fun ts cm fuel Hef => mech_refines_spec_tryfree [MOk ts] cm B C FM C14_core_in_builtins Hef fuel). Qed.
+
+(* --- a function that outlives the failed load that defined it (it was stored in another module before the load
+       failed): after the path is loaded again, the old function, and the closures it creates, read and write the OLD
+       instance's globals; the new module's globals are untouched.  Two fixed programs (reload inside the old function /
+       by the main script), Mechanism = Spec = the listed lines; on the variant of closure_impl that binds a new closure
+       to the module REGISTERED under the function's path the closure writes the new module: refuted --- *)
+Theorem C14_escaped_function_keeps_old_instance :
+  ex_obs ex_escape_reload_inside
+  = mkobs ["<class AttributeError>"; undefined_property "x5"; "1"; "7"; "7"; "100"; "100"] ["m3"; "m1"; "m1"] ObOk
+  /\ ex_obs ex_escape_reload_outside
+  = mkobs ["<class AttributeError>"; undefined_property "x5"; "1"; "7"; "7"; "100"] ["m3"; "m1"; "lib/m2"; "m1"] ObOk
+  /\ ex_obs ex_escape_reload_inside = ex_spec ex_escape_reload_inside
+  /\ ex_obs ex_escape_reload_outside = ex_spec ex_escape_reload_outside.
+Proof. exact ex_escape_obs. Qed.
+
+Theorem C14_closure_of_registered_module_refuted :
+  ex_obs_reg ex_escape_reload_inside
+  = mkobs ["<class AttributeError>"; undefined_property "x5"; "1"; "7"; "100"; "7"; "7"] ["m3"; "m1"; "m1"] ObOk
+  /\ ex_obs_reg ex_escape_reload_inside <> ex_spec ex_escape_reload_inside
+  /\ ex_obs_reg ex_escape_reload_outside <> ex_spec ex_escape_reload_outside.
+Proof. exact ex_escape_refuted_registered. Qed.
 
 (* --- fibers: the cycle test looks at the whole caller chain.  Current variant: a cycle closing through two nested
        fibers is an ImportError; an exception does not cross a fiber boundary.  The variant that looks only at the
@@ -385,12 +436,16 @@ Print Assumptions C14_side_main_literal.
 Print Assumptions C14_side_import_shape.
 Print Assumptions C14_side_active_module_sites.
 Print Assumptions C14_side_builtin_names_known.
+Print Assumptions C14_side_default_loader.
 Print Assumptions C14_side_no_main_only_names.
 Print Assumptions C14_startup_names_in_every_module.
 Print Assumptions C14_side_only_script_has_empty_name.
 Print Assumptions C14_core_in_builtins.
 Print Assumptions C14_mech_refines_spec_tryfree.
-Print Assumptions C14_mech_refines_spec.
+Print Assumptions C14_mech_refines_spec_partial.
+Print Assumptions C14_escaped_function_keeps_old_instance.
+Print Assumptions C14_closure_of_registered_module_refuted.
+Print Assumptions C14_function_of_old_object_uses_its_own_globals.
 Print Assumptions C14_refines_single_module.
 Print Assumptions C14_fiber_call_enters_module.
 Print Assumptions C14_cycle_through_fibers_is_import_error.
